@@ -216,6 +216,7 @@ GEN = {
                "Gen_GetAttrType_String"],
     "GenC03": ["Gen_buildSelfLink_eq", "Gen_buildRelationshipLinks_eq"],
     "GenC08": ["Gen_parseCommaList_eq", "Gen_parseFragments_eq"],
+    "GenC15": ["Gen_Schema_HasType_eq", "Gen_Schema_GetType_eq"],
     "GenC07": ["Gen_deduceRoute_nil", "Gen_deduceRoute_take5", "Gen_deduceRoute_col", "Gen_deduceRoute_res",
                "Gen_deduceRoute_related", "Gen_deduceRoute_self"],
 }
@@ -223,11 +224,12 @@ GEN_WHAT = {
     "GenC16": "Rel.Invert, Rel.Normalize, Rel.String and relLess",
     "GenC10": "checkStr, checkInt, checkUint, checkBool, checkTime and checkIn",
     "GenC08": "parseCommaList and parseFragments",
+    "GenC15": "Schema.HasType and Schema.GetType",
     "GenC14": "GetAttrType and GetAttrTypeString",
     "GenC03": "buildSelfLink and buildRelationshipLinks",
     "GenC07": "deduceRoute",
 }
-GEN_USERS = {"C16": ["GenC16"], "C10": ["GenC10"], "C09": ["GenC10"], "C14": ["GenC14"], "C17": ["GenC14"], "C19": ["GenC14"],
+GEN_USERS = {"C16": ["GenC16"], "C10": ["GenC10"], "C09": ["GenC10"], "C14": ["GenC14", "GenC15"], "C15": ["GenC15"], "C12": ["GenC15"], "C17": ["GenC14"], "C19": ["GenC14"],
              "C03": ["GenC03"], "C04": ["GenC03"], "C07": ["GenC07", "GenC08"], "C08": ["GenC08"]}
 for _pid, _mods in GEN_USERS.items():
     _c = PROPS[_pid]
